@@ -290,9 +290,8 @@ def evalC (env : List (String × Val)) : CExpr → Except Err Val
     | _ => throw Err.attributeError
   | .lit r => pure (.num ⟨r, 0⟩)
 
-/-- a component constructor of Circuit/components.py applied to keyword arguments -/
-def applyCtor (c : CtorSpec) (id : String) (nodes : List String) (args : List (String × Val)) :
-    Except Err Component := do
+/-- binding, guards and value dictionary of a component constructor -/
+def ctorValue (c : CtorSpec) (args : List (String × Val)) : Except Err (List (String × Val)) := do
   if args.any (fun kv => (c.params.lookup kv.1).isNone) then throw Err.typeError
   let env ← c.params.mapM fun (pd : String × Option Rat) =>
     match args.lookup pd.1, pd.2 with
@@ -307,8 +306,13 @@ def applyCtor (c : CtorSpec) (id : String) (nodes : List String) (args : List (S
     match env.lookup p with
     | some (.str s) => if s ∈ Gen.knownWavetypes then pure () else throw (Err.other "UnknownWavetype")
     | _ => throw (Err.other "UnknownWavetype")
-  let value ← c.values.mapM fun (kv : String × CExpr) => do pure (kv.1, ← evalC env kv.2)
-  pure { type := c.kind, id := id, nodes := nodes, value := value }
+  c.values.mapM fun (kv : String × CExpr) => do pure (kv.1, ← evalC env kv.2)
+
+/-- a component constructor of Circuit/components.py applied to keyword arguments: argument
+binding, guards and the value dictionary (`ctorValue`), then the `Component` record -/
+def applyCtor (c : CtorSpec) (id : String) (nodes : List String) (args : List (String × Val)) :
+    Except Err Component :=
+  (ctorValue c args).map fun value => { type := c.kind, id := id, nodes := nodes, value := value }
 
 def nodeTuple (spec : NodeSpec) (rev : Bool) (nodes : List String) : Except Err (List String) :=
   match spec, nodes with
@@ -336,20 +340,28 @@ def runCases (π : Rat) (s : Sym) (nodes : List String) : List TrCase → Except
       let v ← s.getAttr a
       if v = .str m then runCase π s nodes c else runCases π s nodes cs
 
-/-- `DiagramTranslator.__call__`: table lookup by exact class; a `KeyError` anywhere inside
-is reported as `UnknownTranslator` (`Err.unknownKind`) -/
-def translateSym (π : Rat) (label : Pt → Except Err String) (s : Sym) : Except Err (Option Component) :=
+/-- the translator of the symbol's class applied to given terminal names -/
+def compOfSym (π : Rat) (s : Sym) (nodes : List String) : Except Err (Option Component) :=
   match Gen.translatorMap.lookup s.cls with
   | none => throw Err.unknownKind
   | some f =>
-    let r : Except Err (Option Component) := do
+    match Gen.translators.lookup f with
+    | none => throw (Err.other "translator missing from the generated table")
+    | some cases => runCases π s nodes cases
+
+/-- `except KeyError: raise UnknownTranslator` -/
+def remapKE {α : Type} : Except Err α → Except Err α
+  | .error Err.keyError => .error Err.unknownKind
+  | r => r
+
+/-- `DiagramTranslator.__call__`: table lookup by exact class; a `KeyError` anywhere inside
+(node lookup or translator) is reported as `UnknownTranslator` (`Err.unknownKind`) -/
+def translateSym (π : Rat) (label : Pt → Except Err String) (s : Sym) : Except Err (Option Component) :=
+  match Gen.translatorMap.lookup s.cls with
+  | none => throw Err.unknownKind
+  | some _ => remapKE (do
       let nodes ← [s.n1, s.n2].mapM label
-      match Gen.translators.lookup f with
-      | none => throw (Err.other "translator missing from the generated table")
-      | some cases => runCases π s nodes cases
-    match r with
-    | .error Err.keyError => throw Err.unknownKind
-    | r => r
+      compOfSym π s nodes)
 
 /-- `Circuit.__post_init__` -/
 def mkCircuit (cs : List Component) : Except Err Circuit :=
